@@ -52,7 +52,7 @@ class TraceJob:
     replay(ctx, scenario_path, out_path) re-executes the inputs of the saved scenario lines."""
 
     def __init__(self, name, module, trace_path, consts, invariants=(), chunk=4000, replay=None,
-                 boundary=None, scenario_count=None, heap="3g", meta=None):
+                 boundary=None, scenario_count=None, heap="3g", meta=None, attempts=1, rerun=None):
         self.name, self.module, self.trace_path = name, module, trace_path
         self.consts, self.invariants, self.chunk = consts, invariants, chunk
         self.replay = replay
@@ -60,6 +60,8 @@ class TraceJob:
         self.scenario_count = scenario_count
         self.heap = heap
         self.meta = meta or {}
+        self.rerun = rerun         # re-runs the original harness command (used when the process died: the fatal call was never recorded)
+        self.attempts = attempts   # how often a (schedule-dependent) rejection may be re-run to reproduce it
 
 
 def count_scenarios(path, boundary):
@@ -125,7 +127,12 @@ def handle_rejection(ctx, job, r):
     d = core.save_replay(ctx.prop, stamp, {"scenario.ndjson": "\n".join(scen) + "\n"}, meta)
     log("[legC] %s rejected at line %d: %s" % (job.name, line, failing[:300]))
     # reproduce by re-executing the saved scenario on the real code
-    again = replay_dir(ctx, d, job)
+    again = None
+    crashed = '"ev": "crash"' in failing or '"ev":"crash"' in failing
+    for _ in range(max(1, job.attempts)):
+        again = replay_dir(ctx, d, job, use_rerun=crashed and job.rerun is not None)
+        if again is None or not again["accepted"]:
+            break
     if again is None:
         raise Infra("rejection of %s could not be re-executed (no replay function); saved %s" % (job.name, d))
     if again["accepted"]:
@@ -135,13 +142,13 @@ def handle_rejection(ctx, job, r):
     print("VIOLATION property=%s replay=%s" % (ctx.prop, d), flush=True)
 
 
-def replay_dir(ctx, d, job):
+def replay_dir(ctx, d, job, use_rerun=False):
     """Re-execute the scenario saved in replay dir d and validate it. Returns validate result."""
-    if job.replay is None:
+    if job.replay is None and not use_rerun:
         return None
     wd = ctx.scratch.sub("replay")
     out = os.path.join(wd, "trace.ndjson")
-    job.replay(ctx, os.path.join(d, "scenario.ndjson"), out)
+    (job.rerun if use_rerun else job.replay)(ctx, os.path.join(d, "scenario.ndjson"), out)
     r = core.validate_trace(os.path.join(wd, "tlc"), job.module, out, job.consts, job.invariants, heap=job.heap)
     if r["pre_violated"]:
         raise Infra("replayed trace violates precondition %s" % r["pre_violated"])
